@@ -58,9 +58,15 @@ fn leaf_size() -> BoxedStrategy<usize> {
     prop_oneof![Just(1usize), Just(2usize), Just(4usize), Just(30usize)].boxed()
 }
 
+const DIR_SCALES: [f32; 8] = [1.0, 1.0, 1.0, 0.5, 1e-3, 1e-6, 1e-8, 1e3];
+
 fn ray_spec() -> BoxedStrategy<RaySpec> {
     prop_oneof![
-        2 => (position_box(60.0), direction()).prop_map(|(o, d)| RaySpec::Free(RayD { o, d })),
+        // directions of any length (callers pass differences of points as well as unit vectors)
+        2 => (position_box(60.0), direction(), 0usize..8).prop_map(|(o, d, k)| {
+            let f = DIR_SCALES[k];
+            RaySpec::Free(RayD { o, d: P3 { x: d.x * f, y: d.y * f, z: d.z * f } })
+        }),
         5 => (any::<u16>(), position_box(80.0), 0u32..=100, 0u32..=100, 0u32..=100).prop_map(
             |(idx, o, fx, fy, fz)| RaySpec::Aimed {
                 idx,
@@ -116,8 +122,27 @@ fn polys_case() -> BoxedStrategy<BvhCase> {
         .prop_flat_map(|n| proptest::collection::vec(posed_poly(), n))
         .prop_map(|b| ("normal".to_string(), b));
     let dup = (posed_poly(), 1usize..=120).prop_map(|(b, k)| ("duplicates".to_string(), vec![b; k]));
+    // surfaces meshed as two triangles (same pose, same bounding box, different elements), among other elements
+    let meshed = (proptest::collection::vec((posed_poly(), any::<bool>()), 1..=40)).prop_map(|v| {
+        let mut out = vec![];
+        for (p, split) in v {
+            let q = &p.polygon;
+            if split && q.len() >= 4 {
+                // fan of the first four corners: (0,1,2) and (0,2,3) share the diagonal 0-2
+                let mut a = p.clone();
+                a.polygon = vec![q[0].clone(), q[1].clone(), q[2].clone()];
+                let mut b = p.clone();
+                b.polygon = vec![q[0].clone(), q[2].clone(), q[3].clone()];
+                out.push(a);
+                out.push(b);
+            } else {
+                out.push(p);
+            }
+        }
+        ("meshed".to_string(), out)
+    });
     (
-        prop_oneof![5 => normal, 2 => dup],
+        prop_oneof![5 => normal, 2 => dup, 3 => meshed],
         leaf_size(),
         proptest::collection::vec(ray_spec(), 4..=10),
     )
@@ -169,9 +194,11 @@ fn resolve_ray(spec: &RaySpec, set: &ElemSet) -> RayD {
             let of = ora::v3(o);
             let d = ora::sub(target, of);
             let d = if ora::norm(d) < 1e-6 { [0.0, 1.0, 0.0] } else { ora::unit(d) };
+            // length of the direction vector: derived from the case (callers pass vectors of any length)
+            let f = DIR_SCALES[(*idx as usize) % DIR_SCALES.len()] as f64;
             RayD {
                 o: o.clone(),
-                d: P3 { x: d[0] as f32, y: d[1] as f32, z: d[2] as f32 },
+                d: P3 { x: (d[0] * f) as f32, y: (d[1] * f) as f32, z: (d[2] * f) as f32 },
             }
         }
     }
